@@ -101,6 +101,7 @@ def gen(rng, kind=None, allow_annealer=True):
                T=rng.choice([4, 8, 15, 40]), k=rng.choice([1, 1, 2, 3]), start=rng.choice([1, 1, 2, 5]),
                annealer=None, mixseed=rng.randrange(10 ** 6), preused=rng.random() < 0.3)
     if pt:
+        cfg['ras'] = nt > 1 and rng.random() < 0.25          # reset_after_swap: exchanged levels restart their adaptation
         cfg['betas'] = [round(b, 4) for b in numpy.geomspace(1.0, rng.choice([0.02, 0.1]), nt)] if nt > 1 else [1.0]
         if allow_annealer and nt >= 3 and rng.random() < 0.35:
             cfg['annealer'] = dict(tau=rng.choice([20, 50, 1000]), nu=rng.choice([1, 2, 10]), tmax=rng.random() < 0.6)
@@ -172,7 +173,8 @@ def build(cfg, seed=None, model=None, pool=None, annealer_obj=None, **kw):
             a = cfg['annealer']
             ann = DynamicalAnnealer(tau=a['tau'], nu=a['nu'], Tmax_prior=a['tmax'])
         return ParallelTemperedSampler(params_of(cfg), model, cfg['nchains'], betas=numpy.array(cfg['betas']),
-                                       swap_interval=cfg['si'], proposals=props, adaptive_annealer=ann, seed=seed, pool=pool, **kw)
+                                       swap_interval=cfg['si'], proposals=props, adaptive_annealer=ann, seed=seed, pool=pool,
+                                       **dict(dict(reset_after_swap=bool(cfg.get('ras', False))), **kw))
     return MetropolisHastingsSampler(params_of(cfg), model, cfg['nchains'], proposals=props, seed=seed, pool=pool, **kw)
 
 
